@@ -45,7 +45,7 @@ def make_class(r):
     n = r.choice([1, 2, 3, 4, 5])
     for i in range(n):
         name = f"m{i}"
-        kind = r.choice(["flat", "dotted", "dotted", "default", "dataset", "const", "inherited"])
+        kind = r.choice(["flat", "dotted", "dotted", "default", "dataset", "const", "inherited", "dispatching"])
         target_ns, target_ann = (base_ns, base_ann) if kind == "inherited" else (ns, ann)
         if kind in ("flat", "inherited"):
             key = r.choice(FLAT)
@@ -67,6 +67,20 @@ def make_class(r):
 
             target_ns[name] = dataset(body)
             members[name] = ("ds", [k1, k2])
+        elif kind == "dispatching":
+            # a dataset whose key set depends on an option VALUE (the overload selected by D reads another key)
+            k1, k2 = r.choice(DOTTED), r.choice(FLAT)
+
+            def dflt(a=Option(k2, "dflt")):
+                return ("dflt", a)
+
+            def alt(b=Option(k1, "alt-default")):
+                return ("alt", b)
+
+            d_ = dataset(dflt, dispatch=Option("D", "none"))
+            d_.overload("alt")(alt)
+            target_ns[name] = d_
+            members[name] = ("dynamic", ["D", k1, k2])
         else:
             target_ns[name] = r.choice([1, "const", None, [1, 2]])
             members[name] = ("const", [])
@@ -93,6 +107,14 @@ def gen_options(r, relevant):
     for k in FLAT + DOTTED:
         if r.random() < (0.85 if k in relevant else 0.5):
             o = U.set_path(o, k, r.choice([0, 1, "a", "b", None, [1]]))
+    # values that change WHICH keys a member reads: a templated value, a dispatch value
+    if r.random() < 0.3:
+        k = r.choice(FLAT)
+        other = r.choice([x for x in FLAT if x != k])
+        if U.present(other, o) and not isinstance(U.lookup(other, o), str):
+            o[k] = "{" + other + "}"
+    if r.random() < 0.5:
+        o["D"] = r.choice(["alt", "none", "alt"])
     if r.random() < 0.4:
         o["N1"] = r.choice([0, 1])
     return o
@@ -102,9 +124,17 @@ def expected_keys(members, o):
     """Keys the class reports for o (present keys of its members), by independent lookup; None if a required key is absent."""
     keys = set()
     for name, (kind, ks) in members.items():
+        if kind == "dynamic":
+            continue
         for i, k in enumerate(ks):
             if U.present(k, o):
                 keys.add(k)
+                v = U.lookup(k, o)
+                if isinstance(v, str):
+                    for t in U.template_keys(v):  # a templated value also reads the referenced key
+                        if not U.present(t, o):
+                            return None
+                        keys.add(t)
             elif kind == "opt" or (kind == "ds" and i == 0):
                 return None
     return keys
@@ -112,6 +142,14 @@ def expected_keys(members, o):
 
 def instance_case(ctx, cls, members, raw, o):
     exp_keys = expected_keys(members, o)
+    if exp_keys is not None:
+        for name, (kind, ks) in members.items():
+            if kind == "dynamic":  # key set depends on option values: the member itself says which keys it reads
+                mk = observe(raw[name].keys, copy.deepcopy(o))
+                if mk[0] != "ok":
+                    exp_keys = None
+                    break
+                exp_keys |= set(k[1] for k in mk[1][1])
     W = {"members": {k: list(v) for k, v in members.items()}, "options": o, "case": getattr(ctx, "current_case", None), "shard": ctx.shard, "shards": ctx.shards}
     got = observe(cls, copy.deepcopy(o))
     ctx.evaluations += 1
@@ -208,6 +246,15 @@ def run(ctx, only=None):
                 k = r.choice(flat_rel)
                 pair_case(ctx, cls, members, raw, o1, U.set_path(o1, k, "changed"), "differing_only_in_relevant_flat_key")
             pair_case(ctx, cls, members, raw, o1, copy.deepcopy(o1), "identical")
+            # same present keys, a value that changes which keys are read (dispatch / templated value)
+            if U.present("D", o1):
+                o2 = dict(copy.deepcopy(o1), D="none" if o1["D"] == "alt" else "alt")
+                pair_case(ctx, cls, members, raw, o1, o2, "same_keys_present_other_dispatch_value")
+                o3 = copy.deepcopy(o2)
+                for k in DOTTED:
+                    if U.present(k, o3):
+                        o3 = U.set_path(o3, k, "changed-after-dispatch-flip")
+                pair_case(ctx, cls, members, raw, o2, o3, "same_keys_present_other_dispatch_value")
             pair_case(ctx, cls, members, raw, o1, gen_options(r, relevant), "random")
 
 
